@@ -642,6 +642,42 @@ type dbfile struct {
 	text string
 	// names (label lists) the maps were declared for, for query generation
 	names [][]string
+	// queries every run asks of this file
+	fixedQ []fixedQuery
+}
+
+type fixedQuery struct {
+	q     query
+	class string
+}
+
+func resQ(labels []string, ip string) fixedQuery {
+	a := mustIP(ip)
+	q := query{Name: hlib.Ints(packName(labels)), Path: "res", IPOK: true, A: ints16(a), Fam: 2, Src: 128}
+	if isV4(a) {
+		q.Fam, q.Src = 1, 32
+	}
+	return fixedQuery{q, "res"}
+}
+
+// ecsQ: the address is sent as given (host bits below src are kept)
+func ecsQ(labels []string, fam int, ip string, src int) fixedQuery {
+	a := mustIP(ip)
+	q := query{Name: hlib.Ints(packName(labels)), Path: "ecs", A: ints16(a), Fam: fam, Src: src}
+	w := src
+	if fam == 1 {
+		w += 96
+	}
+	class := "ecs6"
+	if fam == 1 {
+		class = "ecs4"
+	} else if isV4(a) {
+		class = "ecs-f2-v4mapped"
+	}
+	if maskTo(a, w) != a {
+		class += "-hostbits"
+	}
+	return fixedQuery{q, class}
 }
 
 func nameText(labels []string, wild bool, upper bool) string {
@@ -801,7 +837,8 @@ var fixedFiles = []func() *dbfile{
 		f.addMap('8', []string{"example", "com"}, false, []byte("m1"), false)
 		f.addNet(sn("10.0.0.0/8", 2), []byte("m1"), false)
 		f.addNet(sn("10.0.1.0/24", 1), []byte("m1"), false)
-		// m2: named by M/8 lines, no subnets; m1 sorts before it and has range points
+		f.addNet(sn("::/0", 5), []byte("m1"), false)
+		// m2: named by M/8 lines, no subnets; m1 sorts before it and its last range point carries a location
 		f.addMap('M', []string{"nosub", "com"}, false, []byte("m2"), false)
 		f.addMap('8', []string{"nosub", "com"}, false, []byte("m2"), false)
 		// m3: ::/0 declared, no IPv4 default
@@ -831,6 +868,22 @@ var fixedFiles = []func() *dbfile{
 		// default map
 		f.addNet(sn("10.0.0.0/8", 1), []byte{0, 0}, true)
 		f.addNet(sn("2001:db8::/32", 2), []byte{0, 0}, false)
+		ex, nosub, zero := []string{"example", "com"}, []string{"nosub", "com"}, []string{"zero", "org"}
+		f.fixedQ = []fixedQuery{
+			ecsQ(ex, 1, "10.0.1.5", 16), ecsQ(ex, 1, "10.0.1.0", 24), ecsQ(ex, 1, "10.0.1.5", 32), ecsQ(ex, 1, "10.0.1.5", 23),
+			ecsQ(ex, 2, "2001:db8::1", 64), resQ(ex, "10.0.1.5"), resQ(ex, "11.0.0.1"), resQ(ex, "2001:db8::1"),
+			resQ(nosub, "10.0.0.1"), resQ(nosub, "2001:db8::1"), resQ(nosub, "ffff:ffff:ffff:ffff:ffff:ffff:ffff:ffff"), resQ(nosub, "::"),
+			ecsQ(nosub, 2, "2001:db8::", 32), ecsQ(nosub, 1, "10.0.0.0", 8), ecsQ(nosub, 1, "255.255.255.255", 32),
+			resQ([]string{"a", "wild", "com"}, "1.2.3.4"), ecsQ([]string{"a", "wild", "com"}, 1, "1.2.3.0", 24),
+			resQ([]string{"a", "wild", "com"}, "2001:db8::1"), resQ([]string{"a", "wild", "com"}, "2002::1"),
+			resQ([]string{"wild", "com"}, "1.2.3.4"), resQ([]string{"x", "com"}, "1.2.3.4"),
+			resQ(zero, "::5"), resQ(zero, "0.1.2.3"), resQ(zero, "1.2.3.4"), resQ(zero, "2001:db8::1"), resQ(zero, "::"),
+			resQ(zero, "::1:0:0:1"), resQ(zero, "::1:0:0"), ecsQ(zero, 2, "::", 96), ecsQ(zero, 2, "::", 95), ecsQ(zero, 1, "0.0.0.0", 8),
+			ecsQ(zero, 1, "0.0.0.0", 7), ecsQ(zero, 1, "1.0.0.0", 8), ecsQ(zero, 2, "::ffff:0.1.2.3", 128), ecsQ(zero, 2, "::ffff:0.1.2.3", 100),
+			resQ([]string{"www", "example", "org"}, "1.2.3.4"), resQ([]string{"org"}, "2001:db8::1"), resQ(nil, "1.2.3.4"),
+			ecsQ([]string{"www", "example", "org"}, 1, "1.2.3.0", 24), ecsQ(nil, 1, "1.2.3.0", 24),
+			resQ([]string{"f20", "net"}, "::1:0:0:1"), resQ([]string{"f20", "net"}, "0:0:0:1::"), resQ([]string{"f20", "net"}, "::5"),
+		}
 	}),
 	// wildcard maps only, queried at the wildcard's own base name; root wildcard for both paths
 	mkfile(func(f *dbfile) {
@@ -842,6 +895,13 @@ var fixedFiles = []func() *dbfile{
 		f.addNet(sn("0.0.0.0/0", 1), []byte("m1"), false)
 		f.addNet(sn("::/0", 3), []byte("m1"), false)
 		f.addNet(sn("0.0.0.0/0", 2), []byte("m2"), false)
+		ex := []string{"example", "com"}
+		f.fixedQ = []fixedQuery{
+			resQ(ex, "1.2.3.4"), resQ([]string{"a", "example", "com"}, "1.2.3.4"), resQ([]string{"com"}, "1.2.3.4"), resQ(nil, "1.2.3.4"),
+			resQ([]string{"b", "a", "example", "com"}, "2001:db8::1"), resQ([]string{"org"}, "1.2.3.4"),
+			ecsQ(ex, 1, "1.2.3.0", 24), ecsQ([]string{"a", "example", "com"}, 1, "1.2.3.0", 24), ecsQ(nil, 1, "1.2.3.0", 24),
+			ecsQ([]string{"www", "x", "org"}, 2, "2001:db8::", 32),
+		}
 	}),
 	// a wildcard at a name's own base and nothing above it
 	mkfile(func(f *dbfile) {
@@ -850,6 +910,11 @@ var fixedFiles = []func() *dbfile{
 		f.addMap('8', []string{"example", "com"}, true, []byte("m1"), false)
 		f.addNet(sn("0.0.0.0/0", 1), []byte("m1"), false)
 		f.addNet(sn("10.0.0.0/8", 2), []byte{0, 0}, false)
+		ex := []string{"example", "com"}
+		f.fixedQ = []fixedQuery{
+			resQ(ex, "10.2.3.4"), resQ([]string{"a", "example", "com"}, "10.2.3.4"), resQ([]string{"com"}, "10.2.3.4"), resQ(nil, "10.2.3.4"),
+			ecsQ(ex, 1, "10.2.3.0", 24), ecsQ([]string{"a", "example", "com"}, 1, "10.2.3.0", 24), ecsQ([]string{"com"}, 1, "10.2.3.0", 24),
+		}
 	}),
 }
 
@@ -1050,6 +1115,9 @@ func genQueries(r *hlib.Rng, f *dbfile, count int) []struct {
 		crit[k] = criticalAddrs(r, nets)
 	}
 	allAddrs := criticalAddrs(r, f.nets)
+	for _, fq := range f.fixedQ {
+		res = append(res, qc{fq.q, fq.class})
+	}
 	for budget := count; budget > 0; budget-- {
 		n := names[r.Intn(len(names))]
 		isRes := r.Chance(2, 5)
